@@ -40,7 +40,8 @@ P = {
  "C14": (False, "", "", "", "8/C14", "compile-time accept/reject verdicts on client programs have no schedule, fault, time or history dimension; nothing for a simulator to execute (see DESIGN.md 8/C14)"),
  "C15": (True, "exploration", "deterministic simulation with a counting global allocator: scoped allocation ledger must be empty after every run",
          "The simulator binary installs a counting #[global_allocator]; every block allocated while building the consumed source or inside a call into the crate is entered in a ledger, every deallocation removes its block. After a run (consuming kinds, element payloads of 0/8/24/4096 heap bytes, all histories incl. partial chunks, skip, stop, into_seq_iter(take m), concurrent use) has dropped everything, the ledger must be empty; since consecutive runs share the process, an empty ledger after each run also means no growth under repetition.", "8/C15"),
- "C16": (False, "fault_enumeration", "", "", "8/C16", "check under construction (boundary grid)"),
+ "C16": (True, "fault_enumeration", "deterministic simulation over a completely enumerated boundary grid (range bounds x chunk sizes x follow-up operations), each point sequentially and under sampled two-thread schedules, in two builds; oracle = cursor model computed in 128-bit arithmetic",
+         "The input grid (9x9 range bounds incl. empty/inverted ranges and bounds at usize::MAX, chunk sizes {0,1,len-1,len,len+1,MAX/2,MAX-7,MAX} as one-shot and buffered pulls, zero-size for_each/fold/buffered_iter, each followed by further pulls, skip_to_end, queries and into_seq_iter, on every source kind) is enumerated completely; each grid point runs sequentially and under sampled 2-thread schedules, in a build without and a build with overflow checks/debug assertions, and the transcripts of the two builds are compared. Results must equal a cursor model that cannot wrap; documented zero-size panics must occur; nothing else may panic.", "8/C16"),
  "C17": (True, "exploration", "deterministic simulation executed by two differently compiled simulator binaries on identical seeds; transcripts and event-log hashes compared run by run",
          "Determinism makes two binaries comparable: the simulator (and with it the crate, a path dependency) is built once without and once with debug assertions + overflow checks; both execute the same run indices and the parent compares per-run event-log hash and transcript hash (results, indices, lens, ledger, allocator summary, panic messages); a build that aborts is a violation.", "8/C17"),
  "C18": (True, "fault_enumeration", "deterministic simulation with panic injection at every crash point k (wrapped next / clone / closure) under seeded schedules",
